@@ -288,6 +288,24 @@ pub struct WorkerArgs {
     pub only_idx: Option<u64>,
     /// stop after this many cases (used by the slow sanitizer tiers: Miri, valgrind)
     pub max_cases: Option<u64>,
+    /// start at this position of the shard's (permuted) case sequence (crash attribution)
+    pub from_pos: Option<u64>,
+}
+
+fn gcd(a: u64, b: u64) -> u64 {
+    if b == 0 { a } else { gcd(b, a % b) }
+}
+
+/// an odd multiplier coprime to `total`, so that g -> (g * mult + c) mod total is a permutation
+fn perm_multiplier(total: u64) -> u64 {
+    if total <= 2 {
+        return 1;
+    }
+    let mut m = (0x9E37_79B9_7F4A_7C15u64 % total) | 1;
+    while gcd(m, total) != 1 {
+        m += 2;
+    }
+    m
 }
 
 fn prop_salt(id: &str) -> u64 {
@@ -312,12 +330,19 @@ pub fn run_worker(prop: &Prop, a: &WorkerArgs) -> i32 {
     let cur_path = format!("{}.cur", a.out);
     let mut completed = true;
     let mut last_cur_write = Instant::now();
-    let indices: Box<dyn Iterator<Item = u64>> = match a.only_idx {
-        Some(i) => Box::new(std::iter::once(i)),
-        None => Box::new((0..total).filter(|i| i % a.nshards == a.shard)),
+    // Cases are visited in a fixed pseudo-random order (a multiplicative permutation of the index space), so
+    // that a run stopped early by its time budget still samples every section of the index space instead of
+    // only its first block. The case itself depends on its index only, never on the visiting order.
+    let mult = perm_multiplier(total);
+    let perm = move |g: u64| -> u64 { ((g as u128 * mult as u128 + 12_345) % total.max(1) as u128) as u64 };
+    let first_pos = a.from_pos.unwrap_or(0);
+    let (shard, nshards) = (a.shard, a.nshards.max(1));
+    let indices: Box<dyn Iterator<Item = (u64, u64)>> = match a.only_idx {
+        Some(i) => Box::new(std::iter::once((0, i))),
+        None => Box::new((first_pos..).map(move |p| (p, p * nshards + shard)).take_while(move |(_, g)| *g < total).map(move |(p, g)| (p, perm(g)))),
     };
     let mut n_since = 0u32;
-    for idx in indices {
+    for (pos, idx) in indices {
         if a.only_idx.is_none() && start.elapsed().as_secs() >= budget {
             completed = false;
             break;
@@ -328,12 +353,10 @@ pub fn run_worker(prop: &Prop, a: &WorkerArgs) -> i32 {
                 break;
             }
         }
-        // current index marker for crash attribution (cheap: rewritten at most every 2 ms
-        // would lose precision, so write every case but only when cases are slow; for fast
-        // cases write every 64th and let the replay scan the window)
+        // position marker for crash attribution: written for every slow case, every 64th fast case
         n_since += 1;
-        if n_since >= 64 || last_cur_write.elapsed().as_millis() >= 2 {
-            let _ = std::fs::write(&cur_path, format!("{idx}"));
+        if n_since >= 64 || last_cur_write.elapsed().as_millis() >= 2 || a.from_pos.is_some() {
+            let _ = std::fs::write(&cur_path, format!("{pos} {idx}"));
             last_cur_write = Instant::now();
             n_since = 0;
         }
